@@ -491,9 +491,37 @@ class XmlTime(NamedTuple):
 DurationType = XmlTime | XmlDateTime
 
 
+def _days_from_civil(year: int, month: int, day: int) -> int:
+    """Return the day number in the proleptic gregorian calendar."""
+    if month <= 2:
+        year -= 1
+        month += 12
+
+    era = year // 400
+    yoe = year - era * 400
+    doy = (153 * (month - 3) + 2) // 5 + day - 1
+    return era * 146097 + yoe * 365 + yoe // 4 - yoe // 100 + doy
+
+
+def _timeline(obj: DurationType) -> int:
+    """Return the exact position on the timeline in nanoseconds."""
+    days = 0
+    if isinstance(obj, XmlDateTime):
+        days = _days_from_civil(obj.year, obj.month, obj.day)
+
+    seconds = (
+        days * DS_DAY
+        + obj.hour * DS_HOUR
+        + obj.minute * DS_MINUTE
+        + obj.second
+        + (obj.offset or 0) * DS_OFFSET
+    )
+    return seconds * 1_000_000_000 + obj.fractional_second
+
+
 def _cmp(a: DurationType, b: DurationType, op: Callable) -> bool:
     if isinstance(b, a.__class__):
-        return op(a.duration, b.duration)
+        return op(_timeline(a), _timeline(b))
 
     return NotImplemented
 
